@@ -1,14 +1,13 @@
 #!/bin/bash
-# imports the two changes of a finished sub-agent: confirm in a scratch worktree, copy to seeded/, run the property's quick check
-# tools/seed_in.sh C15 [target dir for the demo, default .] [extra properties to run]
-id=$1; target=${2:-.}; shift; shift
-for v in A B; do
+# imports changes of a finished sub-agent: confirm in a scratch worktree, copy to seeded/, run the property's quick check
+# tools/seed_in.sh <id> "<variants>" [target dir for the demo, default .] [extra properties to run]
+id=$1; variants=${2:-A B}; target=${3:-.}; shift; shift; shift
+for v in $variants; do
   d=/tmp/wt/$id/_out/$v
   [ -d $d ] || { echo "== $id/$v: no output"; continue; }
-  demo=$(cd $d && ls *_test.go 2>/dev/null | head -1)
-  tn=$(grep -o 'func Test[A-Za-z0-9_]*' $d/$demo | head -1 | sed 's/func //')
-  echo "== $id/$v demo=$demo test=$tn"
-  /verif/tools/confirm_seeded.sh $d $demo $target -run "^$tn\$" ./$target 2>&1 | grep -v '^$'
+  tn=$(grep -ho 'func Test[A-Za-z0-9_]*' $d/*_test.go | sed 's/func //' | tr '\n' '|' | sed 's/|$//')
+  echo "== $id/$v tests=$tn"
+  /verif/tools/confirm_seeded.sh $d $target -run "^($tn)\$" ./$target 2>&1 | grep -v '^$'
   mkdir -p /verif/seeded/$id/$v && cp -r $d/* /verif/seeded/$id/$v/
-  echo "   $(/verif/tools/mutant.sh /verif/seeded/$id/$v/patch.diff $id "$@" 2>&1 | tr '\n' ' ' | cut -c1-500)"
+  echo "   $(/verif/tools/mutant.sh /verif/seeded/$id/$v/patch.diff $id "$@" 2>&1 | tr '\n' ' ' | cut -c1-600)"
 done
